@@ -89,5 +89,26 @@ def run(ctx):
             dn = {b.term(x)["f"].rsplit("::", 1)[1] for x in ex.get("RoundDown", set()) if b.term(x)["k"] == "call"}
             ctx.ob(f"{short}|RoundUp-adds", "checked_add" in up, f"RoundUp arm calls {sorted(up)}", b.loc(bb))
             ctx.ob(f"{short}|RoundDown-subtracts", "checked_sub" in dn and "checked_add" not in dn, f"RoundDown arm calls {sorted(dn)}", b.loc(bb))
+    ctx.rule("T8 sibling cross-check: Decimal::checked_round and PreciseDecimal::checked_round are the same algorithm over two widths — per "
+             "resolved strategy (RoundUp / RoundDown / RoundToEven) the multiset of operations in the arm is identical; a simplification applied to "
+             "one of them only (e.g. dropping the sign-dependent neighbour choice of RoundToEven) is reported")
+    tabs = {}
+    for ty in ("decimal::Decimal", "precise_decimal::PreciseDecimal"):
+        n_ = "radix_common::math::" + ty + "::checked_round"
+        if not ctx.anchor(n_):
+            continue
+        b = ctx.body(n_)
+        for bb, ed, ow, si in b.enum_guards(r"ResolvedRoundingStrategy$"):
+            ex = arm_regions(b, bb, ed)
+            tabs[ty] = ({v: sorted(re.sub(r"<.*?>", "", t["f"]).rsplit("::", 1)[1] for x_, t in b.calls() if x_ in reg and not re.search(r"Try|from_residual", t["f"]))
+                         for v, reg in ex.items()}, b.loc(bb))
+            break
+    ok = len(tabs) == 2 and tabs["decimal::Decimal"][0] == tabs["precise_decimal::PreciseDecimal"][0]
+    diff = {}
+    if len(tabs) == 2:
+        a_, b_ = tabs["decimal::Decimal"][0], tabs["precise_decimal::PreciseDecimal"][0]
+        diff = {v: (a_.get(v), b_.get(v)) for v in set(a_) | set(b_) if a_.get(v) != b_.get(v)}
+    ctx.ob("checked_round|siblings-agree-per-strategy", ok, "Decimal and PreciseDecimal checked_round perform the same operations in every strategy arm" if ok else
+           f"the two checked_round implementations differ: {diff}", tabs.get("decimal::Decimal", (None, ""))[1])
     ctx.assume("every numerical clause (the rounded value itself, divisibility handling in vault withdrawals, overflow) is value-level and NOT decided; "
                "only the finite mode -> direction table is")
